@@ -29,6 +29,8 @@
                         every depth, each the table's entry of its key;
      `run_package_truthful`  `run_tests` on such a package: every block once, in
                         sorted key order, `Ok` iff every declared verdict is accept.
+                        (T1 for tables that also hold compiler-generated glue —
+                        `::generated::eq_…/clone_…/drop_…`, any entries whose keys have no `#`.)
   T3 `no_shadow_*`      `fn x`/`test x` occupy different keys (coexist); a module
                         declares without error iff its keys are distinct, two
                         tests (or two functions) of one name are an error; no
@@ -337,14 +339,15 @@ theorem cli_exit_run (dbg : Bool) (W : World) (hctx : W.hasCtx = false) (file : 
     GENERATED `Package::get_function` / look-up key: on a package whose table holds its items
     under distinct keys, the name `a.b.f` yields the function `f` of the module `a.b` — its own
     table entry — whatever the modules are called (a submodule may be called `pkg`) … -/
-theorem get_function_resolves (mods : List Mod) (module : Module)
-    (hperm : module.functions.Perm (packageTable test_fn_name_mir test_sig_mir mods))
+theorem get_function_resolves (mods : List Mod) (glue : Table) (module : Module)
+    (hperm : module.functions.Perm (packageTable test_fn_name_mir test_sig_mir mods ++ glue))
     (hnodup : (Table.keys module.functions).Nodup)
     (m : Mod) (hm : m ∈ mods) (f : Name) (info : FnInfo) (hd : Decl.fn f info ∈ m.decls) :
     Package_get_function ⟨module⟩ info.sig (dotJoin (m.path ++ [f])) = .Ok ⟨fullName m.path f, info⟩ := by
   rw [Package_get_function_spec]
   have hmem : (fullName m.path f, info) ∈ module.functions := by
     apply hperm.symm.subset
+    apply List.mem_append_left
     simp only [packageTable, List.mem_flatMap, moduleTable, List.mem_map]
     exact ⟨m, hm, .fn f info, hd, rfl⟩
   have hfind := find_of_mem_nodup module.functions _ info hnodup hmem
@@ -354,22 +357,26 @@ theorem get_function_resolves (mods : List Mod) (module : Module)
 
 /-- … and a name that is the path of no item is missing: no other spelling (the qualified form
     `pkg.f` of the root's `f`, a name with a segment dropped) reaches a function. -/
-theorem get_function_missing (mods : List Mod) (module : Module)
-    (hperm : module.functions.Perm (packageTable test_fn_name_mir test_sig_mir mods))
+theorem get_function_missing (mods : List Mod) (glue : Table) (module : Module)
+    (hperm : module.functions.Perm (packageTable test_fn_name_mir test_sig_mir mods ++ glue))
     (name : Name) (want : Sig)
-    (hno : ∀ m ∈ mods, ∀ d ∈ m.decls, dotJoin (m.path ++ [d.key test_fn_name_mir]) ≠ name) :
+    (hno : ∀ m ∈ mods, ∀ d ∈ m.decls, dotJoin (m.path ++ [d.key test_fn_name_mir]) ≠ name)
+    (hng : pkgDot ++ name ∉ Table.keys glue) :
     Package_get_function ⟨module⟩ want name = .Err .doesNotExist := by
   rw [Package_get_function_spec]
   have hnot : pkgDot ++ name ∉ Table.keys module.functions := by
     intro hk
-    have hk' : pkgDot ++ name ∈ Table.keys (packageTable test_fn_name_mir test_sig_mir mods) :=
+    have hk' : pkgDot ++ name ∈ Table.keys (packageTable test_fn_name_mir test_sig_mir mods ++ glue) :=
       (hperm.map _).subset hk
-    simp only [Table.keys, packageTable, moduleTable, List.mem_map, List.mem_flatMap] at hk'
-    obtain ⟨⟨k, i⟩, ⟨m, hm, d, hd, he⟩, hkk⟩ := hk'
-    simp only [Prod.mk.injEq] at he
-    have : fullName m.path (d.key test_fn_name_mir) = pkgDot ++ name := he.1.trans hkk
-    rw [fullName_path] at this
-    exact hno m hm d hd (List.append_cancel_left this)
+    simp only [Table.keys, List.map_append, List.mem_append] at hk'
+    rcases hk' with hk' | hk'
+    · simp only [packageTable, moduleTable, List.mem_map, List.mem_flatMap] at hk'
+      obtain ⟨⟨k, i⟩, ⟨m, hm, d, hd, he⟩, hkk⟩ := hk'
+      simp only [Prod.mk.injEq] at he
+      have : fullName m.path (d.key test_fn_name_mir) = pkgDot ++ name := he.1.trans hkk
+      rw [fullName_path] at this
+      exact hno m hm d hd (List.append_cancel_left this)
+    · exact hng hk'
   have := find_none_of_not_mem module.functions _ hnot
   unfold get_function
   simp [this]
@@ -415,19 +422,25 @@ example :
     order the hash map `Module.functions` enumerates its keys in: the keys
     `get_tests` turns into test cases are exactly the test blocks of all
     modules, each once (`Perm`), and the list EQUALS the sorted list of those
-    keys — so the order depends on the names only. -/
+    keys — so the order depends on the names only.  The table may hold any further
+    entries whose keys contain no `#` (`glue`: the compiler-generated `::generated::eq_…`,
+    `clone_…`, `drop_…` functions live in the same table): none of them is taken for a test. -/
 theorem discovery_exact (X : XID) (F : XIDFacts X) (mods : List Mod)
     (hid : ∀ m ∈ mods, ∀ d ∈ m.decls, isIdent X d.name = true)
+    (glue : List Name) (hglue : ∀ k ∈ glue, '#' ∉ k)
     (module : Module)
-    (hkeys : (Table.keys module.functions).Perm (Table.keys (packageTable test_fn_name_mir test_sig_mir mods))) :
+    (hkeys : (Table.keys module.functions).Perm
+      (Table.keys (packageTable test_fn_name_mir test_sig_mir mods) ++ glue)) :
     (get_tests_keys module).Perm (testKeys test_fn_name_mir mods) ∧
     get_tests_keys module = RStr.sort (testKeys test_fn_name_mir mods) := by
+  have hg : glue.filter get_tests_filter = [] :=
+    List.filter_eq_nil_iff.mpr (fun k hk => by simp [filter_no_hash k (hglue k hk)])
   have hf : ((Table.keys module.functions).filter get_tests_filter).Perm (testKeys test_fn_name_mir mods) := by
-    rw [← package_filter F test_sig_mir mods hid]
-    exact hkeys.filter _
+    have := hkeys.filter get_tests_filter
+    rw [List.filter_append, package_filter F test_sig_mir mods hid, hg, List.append_nil] at this
+    exact this
   have heq : get_tests_keys module = RStr.sort ((Table.keys module.functions).filter get_tests_filter) := by
-    simp [get_tests_keys, RIter.into_iter, RIter.collect, RIter.map, RIter.filter, Id.run]
-    rfl
+    simp [get_tests_keys, RIter.into_iter, RIter.collect, RIter.map, RIter.filter, Id.run] <;> rfl
   rw [heq]
   exact ⟨(sort_perm _).trans hf, sort_eq_of_perm hf⟩
 
@@ -436,28 +449,36 @@ theorem discovery_exact (X : XID) (F : XIDFacts X) (mods : List Mod)
     whose declared names are identifiers and whose function table holds its items under distinct
     keys (a hash map), in whatever order: `get_tests` does not panic and returns one handle per
     test block of every module, at every depth — the handles' keys are the sorted list of the
-    blocks' keys, and each handle is the table's entry of its key (so it runs that block). -/
+    blocks' keys, and each handle is the table's entry of its key (so it runs that block).
+    The table is the package's items plus any `glue` entries without `#` in their keys. -/
 theorem discovery_runs (X : XID) (F : XIDFacts X) (mods : List Mod)
     (hid : ∀ m ∈ mods, ∀ d ∈ m.decls, isIdent X d.name = true)
+    (glue : Table) (hglue : ∀ e ∈ glue, '#' ∉ e.1)
     (dbg : Bool) (module : Module)
-    (hperm : module.functions.Perm (packageTable test_fn_name_mir test_sig_mir mods))
+    (hperm : module.functions.Perm (packageTable test_fn_name_mir test_sig_mir mods ++ glue))
     (hnodup : (Table.keys module.functions).Nodup) :
     ∃ cs, get_tests dbg module = .ok cs ∧
       cs.map (fun c => c.func.key) = RStr.sort (testKeys test_fn_name_mir mods) ∧
       ∀ c ∈ cs, (c.func.key, c.func.info) ∈ packageTable test_fn_name_mir test_sig_mir mods ∧
         c.func.info.sig = testSig := by
-  have hkeys : (Table.keys module.functions).Perm (Table.keys (packageTable test_fn_name_mir test_sig_mir mods)) :=
-    hperm.map _
-  obtain ⟨hp, hs⟩ := discovery_exact X F mods hid module hkeys
+  have hkeys : (Table.keys module.functions).Perm
+      (Table.keys (packageTable test_fn_name_mir test_sig_mir mods) ++ Table.keys glue) := by
+    have := hperm.map (·.1)
+    simpa [Table.keys, List.map_append] using this
+  have hgk : ∀ k ∈ Table.keys glue, '#' ∉ k := by
+    intro k hk
+    obtain ⟨e, he, rfl⟩ := List.mem_map.mp hk
+    exact hglue e he
+  obtain ⟨hp, hs⟩ := discovery_exact X F mods hid (Table.keys glue) hgk module hkeys
   have hget : get_tests dbg module = List.mapM (get_tests_case dbg module) (get_tests_keys module) := by
-    simp [get_tests, get_tests_keys, RIter.into_iter, RIter.collect, RIter.map, RIter.filter, Id.run]
-    rfl
+    simp [get_tests, get_tests_keys, RIter.into_iter, RIter.collect, RIter.map, RIter.filter, Id.run] <;> rfl
   have hstep : ∀ k ∈ get_tests_keys module, ∃ c, get_tests_case dbg module k = .ok c ∧
       (c.func.key = k ∧ (c.func.key, c.func.info) ∈ packageTable test_fn_name_mir test_sig_mir mods ∧
         c.func.info.sig = testSig) := by
     intro k hk
     obtain ⟨v, rest, hmem, rfl⟩ := testKeys_mem_table test_fn_name_mir test_sig_mir mods k (hp.subset hk)
-    obtain ⟨c, hc, hf⟩ := get_tests_case_spec dbg module rest ⟨test_sig_mir, v⟩ hnodup (hperm.symm.subset hmem) rfl
+    obtain ⟨c, hc, hf⟩ := get_tests_case_spec dbg module rest ⟨test_sig_mir, v⟩ hnodup
+      (hperm.symm.subset (List.mem_append_left _ hmem)) rfl
     exact ⟨c, hc, by rw [hf]; exact ⟨rfl, hmem, rfl⟩⟩
   obtain ⟨cs, hcs, hall⟩ := mapM_ok_forall₂ _ _ (get_tests_keys module) hstep
   have hk := All2.keys hall
@@ -466,17 +487,19 @@ theorem discovery_runs (X : XID) (F : XIDFacts X) (mods : List Mod)
 /-- The first sentence of the property, end to end over the GENERATED `run_tests`: on such a
     package, `run_tests` runs every test block of every module exactly once, in the sorted order
     of the blocks' keys (a function of the names only), and returns `Ok` iff every block's
-    declared verdict is accept. -/
+    declared verdict is accept — whatever compiler-generated `glue` entries (keys without `#`) share
+    the table with the package's items: none of them runs. -/
 theorem run_package_truthful {ε} (X : XID) (F : XIDFacts X) (mods : List Mod)
     (hid : ∀ m ∈ mods, ∀ d ∈ m.decls, isIdent X d.name = true)
+    (glue : Table) (hglue : ∀ e ∈ glue, '#' ∉ e.1)
     (dbg : Bool) (module : Module)
-    (hperm : module.functions.Perm (packageTable test_fn_name_mir test_sig_mir mods))
+    (hperm : module.functions.Perm (packageTable test_fn_name_mir test_sig_mir mods ++ glue))
     (hnodup : (Table.keys module.functions).Nodup)
     (hsmall : (testKeys test_fn_name_mir mods).length < 2^31) (log : List Event) :
     ∃ r, run_tests (ε := ε) dbg module () log
         = (.ok r, log ++ (RStr.sort (testKeys test_fn_name_mir mods)).map Event.ranTest) ∧
       (r = .Ok () ↔ ∀ m ∈ mods, ∀ n v, Decl.test n v ∈ m.decls → v = .Accept ()) := by
-  obtain ⟨cs, hget, hkeys, hinfo⟩ := discovery_runs X F mods hid dbg module hperm hnodup
+  obtain ⟨cs, hget, hkeys, hinfo⟩ := discovery_runs X F mods hid glue hglue dbg module hperm hnodup
   have hlen : cs.length < 2^31 := by
     have := congrArg List.length hkeys
     rw [List.length_map, (sort_perm _).length_eq] at this
@@ -486,9 +509,11 @@ theorem run_package_truthful {ε} (X : XID) (F : XIDFacts X) (mods : List Mod)
     rw [← hkeys, List.map_map]; rfl
   refine ⟨r, by rw [hr, hev], hiff.trans ?_⟩
   have hnd : (Table.keys (packageTable test_fn_name_mir test_sig_mir mods)).Nodup := by
-    have hp : (Table.keys module.functions).Perm (Table.keys (packageTable test_fn_name_mir test_sig_mir mods)) :=
-      hperm.map _
-    exact hp.nodup_iff.mp hnodup
+    have hp : (Table.keys module.functions).Perm
+        (Table.keys (packageTable test_fn_name_mir test_sig_mir mods) ++ Table.keys glue) := by
+      have := hperm.map (·.1)
+      simpa [Table.keys, List.map_append] using this
+    exact (List.nodup_append.mp (hp.nodup_iff.mp hnodup)).1
   constructor
   · intro h m hm n v hd
     have hk := decl_mem_testKeys test_fn_name_mir mods m hm n v hd
@@ -537,6 +562,211 @@ example :
       = (.ok (.Err ()), [.ranTest (pkgDot ++ ['m', '.', 't', 'e', 's', 't', '#', 'a']),
                           .ranTest (pkgDot ++ ['m', '.', 'u', '.', 's', '.', 't', 'e', 's', 't', '#', 'a']),
                           .ranTest (pkgDot ++ ['t', 'e', 's', 't', '#', 'a'])]) := by
+  decide
+
+/-- non-vacuity with compiler-generated functions in the table (`glue`: keys as the code generator
+    names them — `::generated::eq_14`, `::generated::drop_14`, no `pkg.` in front, no `#`): the
+    hypotheses of `discovery_runs` / `run_package_truthful` hold, the same two blocks run in the
+    same order, and the glue neither runs nor makes `get_tests` panic on its `strip_prefix`. -/
+example :
+    let a : Name := ['a']
+    let eq14 : Name := [':', ':', 'g', 'e', 'n', 'e', 'r', 'a', 't', 'e', 'd', ':', ':', 'e', 'q', '_', '1', '4']
+    let drop14 : Name := [':', ':', 'g', 'e', 'n', 'e', 'r', 'a', 't', 'e', 'd', ':', ':', 'd', 'r', 'o', 'p', '_', '1', '4']
+    let glue : Table := [(eq14, ⟨⟨[.other 1, .other 1], .other 0⟩, .Accept ()⟩), (drop14, ⟨⟨[.other 1], .unit⟩, .Accept ()⟩)]
+    let mods : List Mod := [⟨[], [.test a (.Accept ())]⟩, ⟨[['m']], [.test a (.Reject ())]⟩]
+    let module : Module := ⟨glue ++ (packageTable test_fn_name_mir test_sig_mir mods).reverse⟩
+    (∀ e ∈ glue, '#' ∉ e.1) ∧ (Table.keys module.functions).Nodup ∧
+    run_tests (ε := Unit) true module () []
+      = (.ok (.Err ()), [.ranTest (pkgDot ++ ['m', '.', 't', 'e', 's', 't', '#', 'a']),
+                          .ranTest (pkgDot ++ ['t', 'e', 's', 't', '#', 'a'])]) := by
+  decide
+
+/-- The host's own runner (`Package::get_tests()` and `TestCase::run`, the cases one by one), over
+    the GENERATED `get_tests` and `TestCase::run`: on a package (with any glue) there is one handle
+    per test block, in sorted key order, and EVERY handle is its block — run on its own, whatever
+    ran before (`log`), it runs the body stored under its key exactly once and returns `Ok` iff the
+    declared verdict of THAT block is accept. -/
+theorem handle_runs_its_block {ε} (X : XID) (F : XIDFacts X) (mods : List Mod)
+    (hid : ∀ m ∈ mods, ∀ d ∈ m.decls, isIdent X d.name = true)
+    (glue : Table) (hglue : ∀ e ∈ glue, '#' ∉ e.1)
+    (dbg : Bool) (module : Module)
+    (hperm : module.functions.Perm (packageTable test_fn_name_mir test_sig_mir mods ++ glue))
+    (hnodup : (Table.keys module.functions).Nodup) :
+    ∃ cs, get_tests dbg module = .ok cs ∧
+      cs.map (fun c => c.func.key) = RStr.sort (testKeys test_fn_name_mir mods) ∧
+      ∀ c ∈ cs, ∃ m ∈ mods, ∃ n v, Decl.test n v ∈ m.decls ∧
+        c.func.key = fullName m.path (test_fn_name_mir n) ∧
+        ∀ log, TestCase_run (ε := ε) dbg c () log
+          = (.ok (if v = .Accept () then .Ok () else .Err ()), log ++ [.ranTest c.func.key]) := by
+  obtain ⟨cs, hget, hkeys, hinfo⟩ := discovery_runs X F mods hid glue hglue dbg module hperm hnodup
+  refine ⟨cs, hget, hkeys, ?_⟩
+  intro c hc
+  have hnd : (Table.keys (packageTable test_fn_name_mir test_sig_mir mods)).Nodup := by
+    have hp : (Table.keys module.functions).Perm
+        (Table.keys (packageTable test_fn_name_mir test_sig_mir mods) ++ Table.keys glue) := by
+      have := hperm.map (·.1)
+      simpa [Table.keys, List.map_append] using this
+    exact (List.nodup_append.mp (hp.nodup_iff.mp hnodup)).1
+  have hk : c.func.key ∈ testKeys test_fn_name_mir mods := by
+    have : c.func.key ∈ cs.map (fun c => c.func.key) := List.mem_map.mpr ⟨c, hc, rfl⟩
+    rw [hkeys] at this
+    exact (sort_perm _).subset this
+  simp only [testKeys, List.mem_flatMap, List.mem_map, List.mem_filter] at hk
+  obtain ⟨m, hm, d, ⟨hd, ht⟩, hkey⟩ := hk
+  cases d with
+  | fn n i => simp [Decl.isTest] at ht
+  | test n v =>
+    have h2 : (c.func.key, (⟨test_sig_mir, v⟩ : FnInfo)) ∈ packageTable test_fn_name_mir test_sig_mir mods := by
+      rw [← hkey]
+      simp only [packageTable, List.mem_flatMap, moduleTable, List.mem_map]
+      exact ⟨m, hm, .test n v, hd, rfl⟩
+    have hi := mem_nodup_unique _ _ _ _ hnd (hinfo c hc).1 h2
+    refine ⟨m, hm, n, v, hd, hkey.symm, ?_⟩
+    intro log
+    rw [testcase_run_spec]
+    simp only [accepts, evOf, hi]
+    by_cases hv : v = .Accept () <;> simp [hv]
+
+/-- non-vacuity: the handles of a two-module package with glue, each run on its own after an
+    unrelated event: the first (module `m`, rejects) returns `Err`, the second returns `Ok`. -/
+example :
+    let a : Name := ['a']
+    let eq14 : Name := [':', ':', 'g', 'e', 'n', 'e', 'r', 'a', 't', 'e', 'd', ':', ':', 'e', 'q', '_', '1', '4']
+    let glue : Table := [(eq14, ⟨⟨[.other 1, .other 1], .other 0⟩, .Accept ()⟩)]
+    let mods : List Mod := [⟨[], [.test a (.Accept ())]⟩, ⟨[['m']], [.test a (.Reject ())]⟩]
+    let module : Module := ⟨glue ++ (packageTable test_fn_name_mir test_sig_mir mods).reverse⟩
+    (match get_tests true module with
+     | .ok cs => cs.map (fun c => (TestCase_run (ε := Unit) true c () [.stage 9]))
+     | .panic => [])
+      = [(.ok (.Err ()), [.stage 9, .ranTest (pkgDot ++ ['m', '.', 't', 'e', 's', 't', '#', 'a'])]),
+         (.ok (.Ok ()), [.stage 9, .ranTest (pkgDot ++ ['t', 'e', 's', 't', '#', 'a'])])] := by
+  decide
+
+/-- The `else` branches of the GENERATED `cli_inner` (covered by no run: the `roto` binary's runtime
+    has no context): on a runtime that carries a context (`try_without_ctx` is `None`) `test` and
+    `run` refuse — the process fails and NOTHING happens before that: the file is not read, no
+    stage runs, no block, no entry (the log stays empty). -/
+theorem cli_ctx_runtime_refuses (dbg : Bool) (W : World) (hctx : W.hasCtx = true) (file : TR.Path)
+    (function : Name) :
+    (∃ code, cli dbg W ⟨.Test file⟩ W.runtime [] = (.ok code, []) ∧ code.failed = true) ∧
+    (∃ code, cli dbg W ⟨.Run file function⟩ W.runtime [] = (.ok code, []) ∧ code.failed = true) := by
+  obtain ⟨hc, r, p, t, tb⟩ := W
+  simp only at hctx
+  subst hctx
+  constructor <;> exact ⟨_, rfl, rfl⟩
+
+/-- non-vacuity: such a world exists, and on the same script a runtime WITHOUT context runs the block -/
+example :
+    let W : World := ⟨true, true, true, true, [(pkgDot ++ ['t', 'e', 's', 't', '#', 'a'], ⟨testSig, .Accept ()⟩)]⟩
+    (cli true W ⟨.Test ⟨⟩⟩ W.runtime []).2 = [] ∧
+    ((cli true { W with hasCtx := false } ⟨.Test ⟨⟩⟩ { W with hasCtx := false }.runtime []).2.filter isRanTest).length = 1 := by
+  decide
+
+/-! ## T4 on packages — the CLI end to end over discovery and look-up -/
+
+/-- T4 (`test`), end to end over the GENERATED `cli`, `run_tests`, `get_tests` and look-up key: the
+    script is a package (declared names are identifiers, the table holds its items under distinct
+    keys, plus any compiler-generated glue).  `roto test` exits with failure exactly when the
+    script does not compile or SOME test block of SOME module rejects; when it compiles, every
+    block of every module runs exactly once, in the sorted order of the keys; no entry is called. -/
+theorem cli_test_package (X : XID) (F : XIDFacts X) (mods : List Mod)
+    (hid : ∀ m ∈ mods, ∀ d ∈ m.decls, isIdent X d.name = true)
+    (glue : Table) (hglue : ∀ e ∈ glue, '#' ∉ e.1)
+    (dbg : Bool) (W : World) (hctx : W.hasCtx = false) (file : TR.Path)
+    (hperm : W.table.Perm (packageTable test_fn_name_mir test_sig_mir mods ++ glue))
+    (hnodup : (Table.keys W.table).Nodup)
+    (hsmall : (testKeys test_fn_name_mir mods).length < 2^31) :
+    ∃ code log, cli dbg W ⟨.Test file⟩ W.runtime [] = (.ok code, log) ∧
+      (code.failed = true ↔
+        (compileOk W = false ∨ ∃ m ∈ mods, ∃ n v, Decl.test n v ∈ m.decls ∧ v ≠ .Accept ())) ∧
+      log.filter isRanTest
+        = (if compileOk W then (RStr.sort (testKeys test_fn_name_mir mods)).map Event.ranTest else []) ∧
+      log.filter isEntryCall = [] := by
+  obtain ⟨cs, hget, hkeys, -⟩ := discovery_runs X F mods hid glue hglue dbg ⟨W.table⟩ hperm hnodup
+  have hlen : cs.length < 2^31 := by
+    have := congrArg List.length hkeys
+    rw [List.length_map, (sort_perm _).length_eq] at this
+    omega
+  obtain ⟨code, log, hrun, hiff, hran, hentry⟩ := cli_exit_test dbg W hctx file cs hget hlen
+  obtain ⟨r, hr, hiff1⟩ := run_tests_truthful (ε := Unit) dbg ⟨W.table⟩ cs hget hlen []
+  obtain ⟨r', hr', hiff2⟩ := run_package_truthful (ε := Unit) X F mods hid glue hglue dbg ⟨W.table⟩
+    hperm hnodup hsmall []
+  have hrr : r = r' := by
+    have := hr.symm.trans hr'
+    simp only [Prod.mk.injEq, Out.ok.injEq] at this
+    exact this.1
+  subst hrr
+  have hall : (∀ t ∈ cs, t.func.info.verdict = .Accept ()) ↔
+      (∀ m ∈ mods, ∀ n v, Decl.test n v ∈ m.decls → v = .Accept ()) := hiff1.symm.trans hiff2
+  have hev : cs.map evOf = (RStr.sort (testKeys test_fn_name_mir mods)).map Event.ranTest := by
+    rw [← hkeys, List.map_map]; rfl
+  refine ⟨code, log, hrun, hiff.trans ?_, by rw [hran, hev], hentry⟩
+  refine or_congr Iff.rfl ?_
+  rw [exists_not_iff_not_forall cs (fun t => t.func.info.verdict = .Accept ()), hall]
+  constructor
+  · intro h
+    exact Classical.byContradiction fun hc => h (fun m hm n v hd =>
+      Classical.byContradiction fun hv => hc ⟨m, hm, n, v, hd, hv⟩)
+  · rintro ⟨m, hm, n, v, hd, hv⟩ h
+    exact hv (h m hm n v hd)
+
+/-- T4 (`run`), end to end on a package: the entry `a.b.f` of `roto run` is the function `f` declared
+    in module `a.b` (whatever the modules are called).  On a script that compiles the process
+    fails exactly when that function is not a `fn()`, and otherwise calls THAT function — its own
+    table entry — exactly once; no test block runs. -/
+theorem cli_run_package (mods : List Mod) (glue : Table)
+    (dbg : Bool) (W : World) (hctx : W.hasCtx = false) (hc : compileOk W = true) (file : TR.Path)
+    (hperm : W.table.Perm (packageTable test_fn_name_mir test_sig_mir mods ++ glue))
+    (hnodup : (Table.keys W.table).Nodup)
+    (m : Mod) (hm : m ∈ mods) (f : Name) (info : FnInfo) (hd : Decl.fn f info ∈ m.decls) :
+    ∃ code log, cli dbg W ⟨.Run file (dotJoin (m.path ++ [f]))⟩ W.runtime [] = (.ok code, log) ∧
+      (code.failed = true ↔ info.sig ≠ entrySig) ∧
+      log.filter isEntryCall = (if info.sig = entrySig then [.calledEntry (fullName m.path f)] else []) ∧
+      log.filter isRanTest = [] := by
+  obtain ⟨code, log, hrun, hiff, hcall, hran⟩ := cli_exit_run dbg W hctx file (dotJoin (m.path ++ [f]))
+  have hmem : (fullName m.path f, info) ∈ W.table := by
+    apply hperm.symm.subset
+    apply List.mem_append_left
+    simp only [packageTable, List.mem_flatMap, moduleTable, List.mem_map]
+    exact ⟨m, hm, .fn f info, hd, rfl⟩
+  have hfind := find_of_mem_nodup W.table _ info hnodup hmem
+  rw [fullName_path] at hfind
+  have hfail : code.failed = true ↔ info.sig ≠ entrySig := by
+    rw [hiff, hc]
+    simp only [Bool.true_eq_false, false_or, entryMissing, entryMistyped, hfind]
+    constructor
+    · rintro (h | ⟨i, hi, hs⟩)
+      · cases h
+      · cases hi; exact hs
+    · intro hs; exact Or.inr ⟨info, rfl, hs⟩
+  refine ⟨code, log, hrun, hfail, ?_, hran⟩
+  rw [hcall, fullName_path]
+  by_cases hs : info.sig = entrySig
+  · have : code.failed = false := by
+      cases hcf : code.failed with
+      | false => rfl
+      | true => exact absurd hs (hfail.mp hcf)
+    simp [hs, this]
+  · have : code.failed = true := hfail.mpr hs
+    simp [hs, this]
+
+/-- non-vacuity of both: a two-module package with glue; `roto test` fails because the block of
+    module `m` rejects, both blocks ran in key order; `roto run … m.go` calls `pkg.m.go` once. -/
+example :
+    let a : Name := ['a']
+    let go : Name := ['g', 'o']
+    let eq14 : Name := [':', ':', 'g', 'e', 'n', 'e', 'r', 'a', 't', 'e', 'd', ':', ':', 'e', 'q', '_', '1', '4']
+    let glue : Table := [(eq14, ⟨⟨[.other 1, .other 1], .other 0⟩, .Accept ()⟩)]
+    let mods : List Mod := [⟨[], [.test a (.Accept ())]⟩, ⟨[['m']], [.fn go ⟨entrySig, .Accept ()⟩, .test a (.Reject ())]⟩]
+    let W : World := ⟨false, true, true, true, glue ++ (packageTable test_fn_name_mir test_sig_mir mods).reverse⟩
+    let failed (o : Out CliErr ExitCode) : Option Bool := match o with | .ok c => some c.failed | _ => none
+    (Table.keys W.table).Nodup ∧ compileOk W = true ∧
+    failed (cli true W ⟨.Test ⟨⟩⟩ W.runtime []).1 = some true ∧
+    (cli true W ⟨.Test ⟨⟩⟩ W.runtime []).2.filter isRanTest
+      = [.ranTest (pkgDot ++ ['m', '.', 't', 'e', 's', 't', '#', 'a']), .ranTest (pkgDot ++ ['t', 'e', 's', 't', '#', 'a'])] ∧
+    failed (cli true W ⟨.Run ⟨⟩ (dotJoin [['m'], go])⟩ W.runtime []).1 = some false ∧
+    (cli true W ⟨.Run ⟨⟩ (dotJoin [['m'], go])⟩ W.runtime []).2.filter isEntryCall
+      = [.calledEntry (fullName [['m']] go)] := by
   decide
 
 /-- the type checker and the MIR lowerer agree on the name and signature of a test, and the
